@@ -6,6 +6,8 @@ package s3db
 // and the tests' expectations must hold for every instant.
 
 import (
+	"strings"
+	"unicode/utf8"
 	"time"
 
 	v1proto "github.com/jrhy/s3db/proto/v1"
@@ -67,5 +69,36 @@ func VerifH_selfcheck_mergerows() {
 			symAssert((o < 0) == (i < j) && (o == 0) == (i == j), "class-order")
 		}
 	}
+	symReach("end")
+}
+
+// The UTF-8 model (symbolic decoding in the engine) against the real
+// unicode/utf8 and strings code: every sample path is replayed natively and
+// the observations must agree.
+func VerifH_selfcheck_utf8() {
+	n := symChoice("len", symParam("maxlen", 3)+1)
+	s := symString("s", n)
+	valid := utf8.ValidString(s)
+	runes, bad := 0, 0
+	for _, r := range s {
+		runes++
+		if r == utf8.RuneError {
+			bad++
+		}
+	}
+	fixed := strings.ToValidUTF8(s, "?")
+	symObserve("valid", valid)
+	symObserve("runes", runes)
+	symObserve("bad", bad)
+	symObserve("fixedlen", len(fixed))
+	if valid {
+		symAssert(fixed == s, "valid-text-is-left-alone")
+		symAssert(utf8.RuneCountInString(s) == runes, "rune-count")
+	} else {
+		symAssert(fixed != s, "invalid-text-is-changed")
+		symAssert(bad > 0, "invalid-text-has-a-bad-sequence")
+		symReach("invalid")
+	}
+	symAssert(utf8.ValidString(fixed), "result-is-valid")
 	symReach("end")
 }
